@@ -574,6 +574,7 @@ fn run_cloudconc(args: &Args) {
 fn run_sqlchild(args: &Args) {
     use std::io::Write as _;
     let mut h = rep::RepRun::new_at(Some(args.out.clone()));
+    h.big = true;
     let mut rng = Rng::new(args.seed);
     let so = std::io::stdout();
     for _ in 0..args.max_len {
@@ -704,8 +705,15 @@ fn run_sqlkill(args: &Args) {
             } else {
                 None
             };
-            let mut fresh = rep::RepRun::new_at(Some(dir.path().to_path_buf()));
-            let actual = fresh.dump();
+            // (a database that cannot be opened or read after the kill is a finding, not a harness failure)
+            let actual = {
+                let p = dir.path().to_path_buf();
+                let r = std::panic::catch_unwind(std::panic::AssertUnwindSafe(|| {
+                    let mut fresh = rep::RepRun::new_at(Some(p));
+                    fresh.dump()
+                }));
+                r.unwrap_or_else(|_| vec!["durable-violation the database cannot be opened or read after the kill".to_string()])
+            };
             // the acknowledged actions on a scratch replica (same code, also on SQLite: the working-set
             // rebuild follows the storage's enumeration order, which differs between the backends)
             let mut scratch = rep::RepRun::new(true);
